@@ -123,12 +123,21 @@ fn cases(tier: Tier) -> &'static Vec<Case> {
                 }
             }
         }
+        // every class after a long history of plain exchanges on the same connection
+        for (class, bad) in bad_requests(tier) {
+            for h in history_lengths(deep(tier)) {
+                let mut bytes = history(h);
+                bytes.extend_from_slice(&bad);
+                bytes.extend_from_slice(&get("/after"));
+                v.push(Case { class, label: format!("{} after a history of {} exchanges", class, h), bytes, deferred: false });
+            }
+        }
         v
     })
 }
 
 fn scenario(c: &Case) -> Scenario {
-    let mut sc = Scenario::one_conn(vec![c.bytes.clone()], AppProgram::simple());
+    let mut sc = Scenario::one_conn(split_history(&c.bytes), AppProgram::simple());
     if c.deferred {
         // the application answers only after the client's stream has ended
         sc.app.deferred = true;
@@ -171,7 +180,7 @@ impl Check for C10 {
     fn rule(&self, tier: Tier) -> String {
         let classes: std::collections::BTreeSet<&str> = bad_requests(tier).iter().map(|b| b.0).collect();
         format!(
-            "{} malformed/unsupported request forms in classes {:?}, each placed at every position of a pipeline of 1..{} requests with every combination of valid neighbours (GET / POST with a small body), application answering immediately or only after the client's stream has ended; {} conversations; the reference model fixes what is delivered (never the rejected request), the order and status of what the client sees (earlier answers first, then 400+close / 417+close / close / 505 and continued service) and that the conversation terminates (a deadlock report is a violation)",
+            "{} malformed/unsupported request forms in classes {:?}, each placed at every position of a pipeline of 1..{} requests with every combination of valid neighbours (GET / POST with a small body), application answering immediately or only after the client's stream has ended; every form also after a history of 64 / 100 / 1024 (thorough: 19 lengths from 63 to 4097) answered exchanges on the same connection; {} conversations; the reference model fixes what is delivered (never the rejected request), the order and status of what the client sees (earlier answers first, then 400+close / 417+close / close / 505 and continued service) and that the conversation terminates (a deadlock report is a violation)",
             bad_requests(tier).len(), classes, if full(tier) { 4 } else { 3 }, cases(tier).len()
         )
     }
